@@ -269,6 +269,11 @@ class Exec:
                     m.add_reactions([R] if op["alone"] else [good, R] if op["good"] not in m.reactions else [R])
             except ValueError:
                 pass
+        elif k == "rcopy":
+            self.rxn(op["r"]).copy()                 # a detached copy is made and dropped: the model must not notice
+        elif k == "radd":
+            a, b = self.rxn(op["r"]), self.rxn(op["r2"])
+            _ = (a + b) if op.get("sign", 1) > 0 else (a - b)
         elif k == "ctx_rename_one":
             # a context of its own around the renaming of one gene: everything, the genes not involved included, must be back afterwards
             from cobra.manipulation import rename_genes
@@ -510,6 +515,10 @@ def gen_op(rng, ex: Exec, kinds=None, p_bad=0.12):
         if bad and rng.random() < 0.6:
             op["junk"] = rng.choice(["none", "int"])
         return op
+    if k == "rcopy":
+        return {"op": k, "r": some_r()}
+    if k == "radd":
+        return {"op": k, "r": some_r(), "r2": some_r(), "sign": rng.choice([1, -1])}
     if k == "ctx_rename_one":
         if not gids:
             return {"op": "slim_optimize"}
